@@ -54,6 +54,10 @@ Clauses(e) ==
       C2HostOnlyForC2Commands |->
           (e.ev = "TapAct" /\ "c2" \in DOMAIN Cfg /\ Cfg.c2 # "" /\ e.node = Cfg.c2 /\ Cfg.c2 \notin SetOf(Cfg.startNodes))
               => e.c2act,
+      \* a kill-chain option that is switched off in the settings (PAYLOAD.exfiltrate / PAYLOAD.corrupt of TAP001) means the
+      \* action that option stands for is never taken
+      SwitchedOffPayloadNeverUsed |->
+          (e.ev = "TapAct" /\ "forbid" \in DOMAIN Cfg) => e.action \notin SetOf(Cfg.forbid),
       \* ---- probabilistic agents
       ChoiceInTable        |-> e.ev = "Choose" => InTable(e.choice),
       NeverZeroProbability |-> e.ev = "Choose" => Positive(e.choice),
